@@ -18,6 +18,7 @@ func checkC04(c *Ctx) {
 		c.runStoreMC(exact2, "OpsAll", "MCKeys", 6, "exact x exact")
 	}
 	c.runDenseImplMC("IK_ExactExact", 2, "dense x dense (array level)")
+	c.runPagedImplMC()
 	// exhaustive tree, small alphabet
 	c.runStoreGen(&StoreGen{Kinds: exact2, Keys: []int{0, 2, 4}, Q: 4, Weights: []int{0, 6}, Factors: [][2]int{{3, 2}, {1, 2}},
 		Repeats: []int{33}, Ops: opsC04, Depth: c.pick(3, 4)}, c.pick(6, 12), "exhaustive tree")
@@ -42,5 +43,9 @@ func checkC04(c *Ctx) {
 	// the same kind of recording, narrower index clusters, additionally validated at array level (DenseImpl.tla, real overhead 64)
 	c.runStoreTraces(c.pick(12, 100), traceGenOpts{Layout: true, MaxWidth: 60, Events: c.pick(300, 1500), Kinds: []string{"dense", "dense", "sparse", "paged"},
 		Ops: []string{"Add", "AddWithCount", "AddBin", "AddRepeat", "Merge", "CopyTo", "Clear", "Reweight", "EncDec", "Proto", "Read"}}, "dense stores, array layout")
+	// paginated stores only, single-append operations: the whole history stays tracked by PagedImpl.tla (buffer, capacity,
+	// compaction trigger, page slice, allocated pages, minPageIndex) with the real constants
+	c.runStoreTraces(c.pick(8, 60), traceGenOpts{Layout: true, MaxWidth: 60, Events: c.pick(700, 3000), Kinds: []string{"paged"},
+		Ops: []string{"Add", "Add", "Add", "Add", "Add", "Add", "Add", "Add", "AddWithCount", "AddBin", "CopyTo", "Clear", "Reweight", "Read"}}, "paginated stores, page layout")
 }
 
